@@ -100,7 +100,13 @@ class SP(ASTNode):
     items: tuple[ASTNode, ...] = ()
 
 
-CLASSES = {"SV": SV, "SL": SL, "SP": SP}
+@dataclass(frozen=True)
+class SU(ASTNode):  # child fields typed as a UNION of node classes (the serializer dispatches through the first member)
+    u: SV | SL | SP | None = None
+    w: tuple[SV | SL, ...] = ()
+
+
+CLASSES = {"SV": SV, "SL": SL, "SP": SP, "SU": SU}
 U = Universe("c04", [C("SL", SL, [F("v", PROP, alphabet=(0, 1))]), C("SP", SP, [F("one", OPT), F("items", VAR, maxlen=3)])])
 
 STRINGS = ["", "a", "ä€𝄞", "\x00", "a\x00b", "\x85", "﻿", "﻿a", "'", '"', "\\", "\\n", "yes", "no", "null", "~", "true", "True", "1", "1e3", "0x10", "0o7",
@@ -142,6 +148,8 @@ def origin_kinds():
         "multi-common-source": merge_origins(a, CodeOrigin(MS1, _R2)),
         "multi-source-set": merge_origins(a, b, XMLFileOrigin(FS1, XMLPath("/q"))),
         "multi-from-tuple": MultiOrigin(origins=(a, b)),
+        # two EQUAL but separately constructed sources (each get_xml_origin call builds its own FileSource)
+        "multi-equal-distinct-sources": merge_origins(get_xml_origin(Path("dir/same.xml"), "/a"), get_xml_origin(Path("dir/same.xml"), "/b")),
         "base-entire-source": Origin(MS1, EntireSourcePosition()),
         "base-no-position": Origin(MS2, NO_POSITION),
         "base-no-source": Origin(NO_SOURCE, XMLPath("/only/position")),
@@ -175,6 +183,11 @@ def loads(cls, payload, fmt, opt):
 
 def walk(n, path=()):
     out = [(path, n)]
+    if isinstance(n, SU):
+        if n.u is not None:
+            out += walk(n.u, path + (("u", None),))
+        for i, x in enumerate(n.w):
+            out += walk(x, path + (("w", i),))
     if isinstance(n, SP):
         if n.one is not None:
             out += walk(n.one, path + (("one", None),))
@@ -330,7 +343,14 @@ def shaped():
     def wide():
         return SP(one=SL(0), items=tuple(SL(i % 5) for i in range(12)))     # 12 elements, twins among them (two-digit suffixes)
 
-    return [("shared-object", shared), ("in-tree-twins-wrong-order", wrong_order_twins), ("twin-subtrees", twin_subtrees), ("wide-tuple", wide)]
+    def union_fields():
+        return SU(u=SL(1), w=(SL(2), SV(s="x"), SL(1)))      # later union members, twins among them
+
+    def union_nested():
+        return SP(one=SU(u=SP(one=SL(5)), w=(SL(5),)), items=(SU(u=SV(i=3)),))
+
+    return [("shared-object", shared), ("in-tree-twins-wrong-order", wrong_order_twins), ("twin-subtrees", twin_subtrees), ("wide-tuple", wide),
+            ("union-typed-fields", union_fields), ("union-typed-nested", union_nested)]
 
 
 def plan(tier, seed):
